@@ -1,15 +1,462 @@
-//! C17 — not built yet.
+//! C17 — path summaries handed to commands are faithful.
+//!
+//! Event shapes (440 + 41): paths in {none, each of 7 single paths, 6 chosen pairs} from a
+//! universe with shared and disjoint prefixes, string-prefix siblings (`/r/a`, `/r/ab`,
+//! `/r/a.b`), a directory equal to the eventual common prefix and a duplicate pair; kinds in
+//! {none, each of 7 representatives (one per variable, plus Access(Close(Write)) and Other),
+//! 3 chosen pairs}; file type in {unknown, file, dir} for all paths of the shape. In addition
+//! every one of the 41 `FileEventKind` values on one fixed path (to cover the whole kind ->
+//! variable table). Batches: every sequence of <= 2 shapes (thorough <= 3) of the 440.
+//!
+//! Real code: `watchexec::paths::summarise_events_to_env`, the CLI's `emits_to_environment`
+//! (batches of <= 2) and `events_to_simple_format`.
+//!
+//! Reference (EnvSummary), written from the statement, the doc comment of
+//! `summarise_events_to_env` and doc/watchexec.1.md:
+//!   A  for every (event, path, kind): some entry of the kind's variable joins with COMMON to
+//!      exactly that path (component-wise path equality);
+//!   B  every entry of every variable joins with COMMON to a path that an event with a kind of
+//!      that variable carried; no variable other than the documented seven exists;
+//!   C  the entries of a variable are strictly increasing in byte order (sorted, de-duplicated);
+//!   D  COMMON = longest common directory of the pathed events (a path typed `dir` stands for
+//!      itself, any other path for its parent) when every pathed event carries a kind; COMMON
+//!      is absent when no event carries a path. When some pathed event has no kind the exact
+//!      value of COMMON is left open by the statement and only A/B are demanded.
+//!   simple format: the output is, event by event in batch order, exactly one line
+//!      `<label>:<path>` per (kind, path) pair of the event (one `other:` line per path for a
+//!      kindless event); the order of lines *within* one event is not demanded.
+//!
+//! Deviations / exclusions:
+//!   * line labels: the manual lists create/remove/rename/modify/other for the text format
+//!     while the JSON `simple` vocabulary is access/create/modify/remove/other; the statement
+//!     fixes neither, so a rename kind may be labelled `rename` or `modify`, an access kind
+//!     `access` or `other`.
+//!   * only absolute UTF-8 paths without `:` or newline (what watchexec's sources produce and
+//!     what the `:`-joined format can carry at all).
+//!   * the set of distinct outcomes (`distinct_nontrivial`) is collected over batches of <= 2
+//!     events only, to bound memory in the thorough tier.
+
+use std::{
+	collections::HashMap,
+	ffi::OsString,
+	path::{Path, PathBuf},
+	time::{Duration, Instant},
+};
+
 use dex::orch::Tier;
-use serde_json::Value;
+use serde_json::{json, Value};
+use watchexec::paths::summarise_events_to_env;
+use watchexec_cli::verif::{emits_to_environment, events_to_simple_format};
+use watchexec_events::{filekind::FileEventKind, Event, FileType, Source, Tag};
 
-use crate::common::EnumOut;
+use crate::{
+	c16::fs_table,
+	common::{par_map, EnumOut},
+};
 
-pub fn replay(_input: &Value) -> Vec<(String, String)> {
-	vec![]
+const VARS: [&str; 6] = ["CREATED", "META_CHANGED", "REMOVED", "RENAMED", "WRITTEN", "OTHERWISE_CHANGED"];
+
+const PATHS: [&str; 7] = ["/r/a/b", "/r/a.b", "/r/a", "/r/a/c/d", "/x/y", "/r", "/r/ab"];
+const PATH_PAIRS: [(usize, usize); 6] = [(0, 0), (0, 3), (0, 1), (2, 0), (0, 4), (5, 6)];
+const KIND_REPS: [&str; 7] =
+	["Create(File)", "Modify(Metadata(Permissions))", "Remove(Folder)", "Modify(Name(Both))", "Modify(Data(Content))", "Access(Close(Write))", "Other"];
+const KIND_PAIRS: [(&str, &str); 3] = [("Create(File)", "Modify(Data(Content))"), ("Modify(Data(Content))", "Access(Close(Write))"), ("Remove(Folder)", "Any")];
+
+/// documented kind -> variable table (doc comment of `summarise_events_to_env`), on names
+fn var_of(name: &str) -> usize {
+	let v = if name.starts_with("Create(") {
+		"CREATED"
+	} else if name.starts_with("Modify(Metadata(") {
+		"META_CHANGED"
+	} else if name.starts_with("Remove(") {
+		"REMOVED"
+	} else if name.starts_with("Modify(Name(") {
+		"RENAMED"
+	} else if name.starts_with("Modify(Data(") || name == "Access(Close(Write))" {
+		"WRITTEN"
+	} else {
+		"OTHERWISE_CHANGED"
+	};
+	VARS.iter().position(|x| *x == v).unwrap()
 }
 
-pub fn run(_tier: Tier, _seed: u64) -> EnumOut {
-	let mut o = EnumOut::new("not built");
-	o.machinery = Some("check not built yet".into());
-	o
+/// acceptable line labels of the text format
+fn labels_of(name: &str) -> &'static [&'static str] {
+	if name.starts_with("Create(") {
+		&["create"]
+	} else if name.starts_with("Remove(") {
+		&["remove"]
+	} else if name.starts_with("Modify(Name(") {
+		&["rename", "modify"]
+	} else if name.starts_with("Modify(") {
+		&["modify"]
+	} else if name.starts_with("Access(") {
+		&["access", "other"]
+	} else {
+		&["other"]
+	}
+}
+
+struct Shape {
+	spec: Value,
+	event: Event,
+	paths: Vec<PathBuf>,
+	/// components of the directory each path stands for (D)
+	dirs: Vec<Vec<String>>,
+	/// (variable index, acceptable labels, name) per kind
+	kinds: Vec<(usize, &'static [&'static str], String)>,
+}
+
+fn build_shape(spec: &Value, table: &[(String, FileEventKind, &'static str)]) -> Option<Shape> {
+	let ft = match spec["ft"].as_str() {
+		None => None,
+		Some("file") => Some(FileType::File),
+		Some("dir") => Some(FileType::Dir),
+		Some(_) => return None,
+	};
+	let mut tags = vec![Tag::Source(Source::Filesystem)];
+	let mut paths = vec![];
+	let mut dirs = vec![];
+	for p in spec["paths"].as_array()? {
+		let p = p.as_str()?;
+		if !p.starts_with('/') || p.contains(':') || p.contains('\n') {
+			return None;
+		}
+		tags.push(Tag::Path { path: PathBuf::from(p), file_type: ft });
+		paths.push(PathBuf::from(p));
+		let mut comps: Vec<String> = p.split('/').filter(|c| !c.is_empty()).map(str::to_string).collect();
+		if ft != Some(FileType::Dir) {
+			comps.pop(); // the containing directory ("/" stays "/")
+		}
+		dirs.push(comps);
+	}
+	let mut kinds = vec![];
+	for k in spec["kinds"].as_array()? {
+		let name = k.as_str()?;
+		let (_, kind, _) = table.iter().find(|(n, _, _)| n == name)?;
+		tags.push(Tag::FileEventKind(*kind));
+		kinds.push((var_of(name), labels_of(name), name.to_string()));
+	}
+	Some(Shape { spec: spec.clone(), event: Event { tags, metadata: HashMap::new() }, paths, dirs, kinds })
+}
+
+fn shape_specs() -> Vec<Value> {
+	let mut path_sets: Vec<(Vec<&str>, Vec<Option<&str>>)> = vec![(vec![], vec![None])];
+	let fts = vec![None, Some("file"), Some("dir")];
+	for p in PATHS {
+		path_sets.push((vec![p], fts.clone()));
+	}
+	for (a, b) in PATH_PAIRS {
+		path_sets.push((vec![PATHS[a], PATHS[b]], fts.clone()));
+	}
+	let mut kind_sets: Vec<Vec<&str>> = vec![vec![]];
+	for k in KIND_REPS {
+		kind_sets.push(vec![k]);
+	}
+	for (a, b) in KIND_PAIRS {
+		kind_sets.push(vec![a, b]);
+	}
+	let mut v = vec![];
+	for (ps, fts) in &path_sets {
+		for ft in fts {
+			for ks in &kind_sets {
+				v.push(json!({"paths": ps, "kinds": ks, "ft": ft}));
+			}
+		}
+	}
+	v
+}
+
+fn matchable(expected: &[(&'static [&'static str], &str)], actual: &[(&str, &str)], used: &mut Vec<bool>, i: usize) -> bool {
+	if i == expected.len() {
+		return true;
+	}
+	for j in 0..actual.len() {
+		if !used[j] && actual[j].1 == expected[i].1 && expected[i].0.contains(&actual[j].0) {
+			used[j] = true;
+			if matchable(expected, actual, used, i + 1) {
+				return true;
+			}
+			used[j] = false;
+		}
+	}
+	false
+}
+
+struct Outcome {
+	violations: Vec<(String, String)>,
+	env: Vec<(String, String)>,
+	text: String,
+	evaluations: u64,
+}
+
+/// One batch through the real functions and the reference.
+fn check_batch(batch: &[&Shape], with_cli_env: bool) -> Outcome {
+	let mut v: Vec<(String, String)> = vec![];
+	let events: Vec<Event> = batch.iter().map(|s| s.event.clone()).collect();
+	let mut evaluations = 1;
+	let real: HashMap<&'static str, OsString> = summarise_events_to_env(events.iter());
+	let mut env: Vec<(String, String)> = real.iter().map(|(k, v)| ((*k).to_string(), v.to_string_lossy().into_owned())).collect();
+	env.sort();
+	let show = |v: &Vec<(String, String)>| format!("{v:?}");
+
+	// reference: what each variable must account for
+	let mut carried: [Vec<&Path>; 6] = Default::default();
+	let (mut any_path, mut kindless_pathed) = (false, false);
+	let mut lcd: Option<Vec<&str>> = None;
+	for s in batch {
+		if s.paths.is_empty() {
+			continue;
+		}
+		any_path = true;
+		if s.kinds.is_empty() {
+			kindless_pathed = true;
+		}
+		for d in &s.dirs {
+			lcd = Some(match lcd {
+				None => d.iter().map(String::as_str).collect(),
+				Some(cur) => cur.iter().zip(d.iter()).take_while(|(a, b)| **a == b.as_str()).map(|(a, _)| *a).collect(),
+			});
+		}
+		for (var, _, _) in &s.kinds {
+			for p in &s.paths {
+				if !carried[*var].contains(&p.as_path()) {
+					carried[*var].push(p.as_path());
+				}
+			}
+		}
+	}
+
+	for k in real.keys() {
+		if *k != "COMMON" && !VARS.contains(k) {
+			v.push(("C17/env/undocumented-variable".into(), format!("variable {k} in {}", show(&env))));
+		}
+	}
+	let common: Option<PathBuf> = real.get("COMMON").map(PathBuf::from);
+	let join = |entry: &str| -> PathBuf { common.as_ref().map_or_else(|| PathBuf::from(entry), |c| c.join(entry)) };
+
+	for (i, var) in VARS.iter().enumerate() {
+		let entries: Vec<&str> = match real.get(var) {
+			None => vec![],
+			Some(val) => match val.to_str() {
+				Some(s) => s.split(':').collect(),
+				None => {
+					v.push((format!("C17/env/not-utf8/{var}"), format!("{var} is not UTF-8 although all paths are: {val:?}")));
+					vec![]
+				}
+			},
+		};
+		let joined: Vec<PathBuf> = entries.iter().map(|e| join(e)).collect();
+		// A
+		for p in &carried[i] {
+			if !joined.iter().any(|j| j.as_path() == *p) {
+				v.push((
+					format!("C17/env/path-not-recoverable/{var}"),
+					format!("an event of a {var} kind carries {} but no entry of {var} joins with COMMON to it: {}", p.display(), show(&env)),
+				));
+			}
+		}
+		// B
+		for (e, j) in entries.iter().zip(&joined) {
+			if !carried[i].iter().any(|p| *p == j.as_path()) {
+				v.push((
+					format!("C17/env/entry-without-event/{var}"),
+					format!("{var} lists {e:?} (= {}) but no event of a {var} kind carries that path: {}", j.display(), show(&env)),
+				));
+			}
+		}
+		// C
+		for w in entries.windows(2) {
+			if w[0].as_bytes() == w[1].as_bytes() {
+				v.push((format!("C17/env/duplicate-entry/{var}"), format!("{var} lists {:?} twice: {}", w[0], show(&env))));
+			} else if w[0].as_bytes() > w[1].as_bytes() {
+				v.push((format!("C17/env/not-byte-sorted/{var}"), format!("{var} lists {:?} before {:?}: {}", w[0], w[1], show(&env))));
+			}
+		}
+		for a in 0..joined.len() {
+			if joined[..a].iter().any(|b| *b == joined[a]) && entries[..a].iter().all(|b| *b != entries[a]) {
+				v.push((format!("C17/env/duplicate-entry/{var}"), format!("{var} lists {} under two spellings: {}", joined[a].display(), show(&env))));
+			}
+		}
+	}
+	// D
+	if !any_path {
+		if let Some(c) = &common {
+			v.push(("C17/env/common/set-without-paths".into(), format!("COMMON = {} although no event carries a path", c.display())));
+		}
+	} else if !kindless_pathed {
+		let want = PathBuf::from(format!("/{}", lcd.unwrap_or_default().join("/")));
+		if common.as_deref() != Some(want.as_path()) {
+			v.push((
+				"C17/env/common/not-longest-common-directory".into(),
+				format!("COMMON = {:?}, the longest common directory is {}: {}", common, want.display(), show(&env)),
+			));
+		}
+	}
+
+	// the CLI's wrapper must expose exactly these values under WATCHEXEC_<NAME>_PATH
+	if with_cli_env {
+		evaluations += 1;
+		let mut cli: Vec<(String, String)> = emits_to_environment(&events).map(|e| (e.key, e.value.to_string_lossy().into_owned())).collect();
+		cli.sort();
+		let mut want: Vec<(String, String)> = env.iter().map(|(k, v)| (format!("WATCHEXEC_{k}_PATH"), v.clone())).collect();
+		want.sort();
+		if cli != want {
+			v.push(("C17/env/cli-variables-differ".into(), format!("emits_to_environment gives {cli:?}, the summary is {want:?}")));
+		}
+	}
+
+	// simple format
+	evaluations += 1;
+	let text = match events_to_simple_format(&events) {
+		Ok(t) => t,
+		Err(e) => {
+			v.push(("C17/simple/failed".into(), format!("events_to_simple_format failed: {e}")));
+			String::new()
+		}
+	};
+	if !text.is_empty() && !text.ends_with('\n') {
+		v.push(("C17/simple/unterminated-line".into(), format!("{text:?}")));
+	}
+	let lines: Vec<(&str, &str)> = text.lines().map(|l| l.split_once(':').unwrap_or(("", l))).collect();
+	let mut pos = 0;
+	for (ei, s) in batch.iter().enumerate() {
+		let mut expected: Vec<(&'static [&'static str], &str)> = vec![];
+		for p in &s.paths {
+			let ps = p.to_str().unwrap_or("");
+			if s.kinds.is_empty() {
+				expected.push((&["other"], ps));
+			}
+			for (_, labels, _) in &s.kinds {
+				expected.push((labels, ps));
+			}
+		}
+		let end = pos + expected.len();
+		if end > lines.len() {
+			v.push(("C17/simple/too-few-lines".into(), format!("event #{ei} needs {} lines, output has {} in all: {text:?}", expected.len(), lines.len())));
+			pos = lines.len();
+			break;
+		}
+		let actual = &lines[pos..end];
+		let mut used = vec![false; actual.len()];
+		if !matchable(&expected, actual, &mut used, 0) {
+			let class = if s.kinds.is_empty() { "kindless".to_string() } else { s.kinds.iter().map(|k| k.1[0]).collect::<Vec<_>>().join("+") };
+			v.push((
+				format!("C17/simple/lines-of-event-wrong/{class}"),
+				format!("event #{ei} ({}) should give one line per (kind, path) pair {expected:?}, got {actual:?} in {text:?}", s.spec),
+			));
+		}
+		pos = end;
+	}
+	if pos < lines.len() {
+		v.push(("C17/simple/too-many-lines".into(), format!("{} lines beyond the (kind, path) pairs of the batch: {text:?}", lines.len() - pos)));
+	}
+
+	v.sort();
+	v.dedup_by(|a, b| a.0 == b.0);
+	Outcome { violations: v, env, text, evaluations }
+}
+
+pub fn replay(input: &Value) -> Vec<(String, String)> {
+	let table = fs_table();
+	let shapes: Option<Vec<Shape>> = input["batch"].as_array().map(|a| a.iter().map(|s| build_shape(s, &table)).collect()).unwrap_or(None);
+	let Some(shapes) = shapes else {
+		return vec![("C17/replay/bad-input".into(), format!("cannot rebuild the batch from {}", input["batch"]))];
+	};
+	let refs: Vec<&Shape> = shapes.iter().collect();
+	check_batch(&refs, true).violations
+}
+
+pub fn run(tier: Tier, seed: u64) -> EnumOut {
+	let deadline = Instant::now() + Duration::from_secs(match tier {
+		Tier::Quick => 25,
+		Tier::Thorough => 480,
+	});
+	let mut out = EnumOut::new(
+		"every batch of up to N event shapes (N=2 quick, 3 thorough) over 440 shapes + all 41 kinds singly; real summarise_events_to_env / emits_to_environment / events_to_simple_format vs the EnvSummary reference. non-trivial = distinct (environment map, text) outcomes other than the empty one, over batches of <= 2 events",
+	);
+	out.assumptions = vec![
+		"absolute UTF-8 paths without ':' or newline".into(),
+		"COMMON is only pinned when every pathed event carries a kind (statement); line order within one event and the rename/access labels of the text format are not pinned".into(),
+	];
+	let table = fs_table();
+	let Some(shapes) = shape_specs().iter().map(|s| build_shape(s, &table)).collect::<Option<Vec<Shape>>>() else {
+		out.machinery = Some("shape grammar does not build".into());
+		return out;
+	};
+	let n = shapes.len() as u64;
+	let maxlen: u32 = match tier {
+		Tier::Quick => 2,
+		Tier::Thorough => 3,
+	};
+	out.extra.insert("event_shapes".into(), json!(n));
+	out.extra.insert("max_events_per_batch".into(), json!(maxlen));
+	let total: u64 = (0..=maxlen).map(|l| n.pow(l)).sum();
+	let step = total.div_ceil(1024).max(1);
+	let mut rs: Vec<(u64, u64)> = (0..total).step_by(step as usize).map(|a| (a, (a + step).min(total))).collect();
+	let k = (seed % rs.len() as u64) as usize;
+	rs.rotate_left(k); // the seed only permutes the work order
+
+	let body = par_map(&rs, 16, |chunk, _| {
+		let mut o = EnumOut::default();
+		'outer: for &(a, b) in chunk {
+			for idx in a..b {
+				if idx % 4096 == 0 && Instant::now() > deadline {
+					o.caps.push("C17 batch enumeration stopped by the wall-clock cap".into());
+					break 'outer;
+				}
+				let mut s = idx;
+				let mut len = 0u32;
+				while s >= n.pow(len) {
+					s -= n.pow(len);
+					len += 1;
+				}
+				let mut batch: Vec<&Shape> = Vec::with_capacity(len as usize);
+				for _ in 0..len {
+					batch.push(&shapes[(s % n) as usize]);
+					s /= n;
+				}
+				let r = check_batch(&batch, len <= 2);
+				o.states += 1;
+				o.evaluations += r.evaluations;
+				if len <= 2 && (!r.env.is_empty() || !r.text.is_empty()) {
+					o.nontrivial_mark((&r.env, &r.text));
+				}
+				if len == 2 && idx % 38_611 == 17 {
+					o.sample(json!({"batch": batch.iter().map(|s| s.spec.clone()).collect::<Vec<_>>(), "env": r.env, "simple": r.text, "violations": r.violations.len()}));
+				}
+				for (k, d) in r.violations {
+					o.violate(k, d, json!({"batch": batch.iter().map(|s| s.spec.clone()).collect::<Vec<_>>()}));
+				}
+			}
+		}
+		o
+	});
+	out.extra.insert("batches".into(), json!(body.states));
+	out.merge(body);
+
+	// the complete kind -> variable / label table on one path
+	let mut kinds_done = 0u64;
+	for (name, _, _) in &table {
+		let spec = json!({"paths": ["/r/a/b"], "kinds": [name], "ft": null});
+		let Some(shape) = build_shape(&spec, &table) else {
+			out.machinery = Some(format!("kind {name} does not build"));
+			return out;
+		};
+		let r = check_batch(&[&shape], true);
+		kinds_done += 1;
+		out.states += 1;
+		out.evaluations += r.evaluations;
+		out.nontrivial_mark((&r.env, &r.text));
+		if name == "Access(Close(Write))" {
+			out.sample(json!({"batch": [spec], "env": r.env, "simple": r.text, "violations": r.violations.len()}));
+		}
+		for (k, d) in r.violations {
+			out.violate(k, d, json!({"batch": [spec]}));
+		}
+	}
+	out.extra.insert("single_kind_batches".into(), json!(kinds_done));
+	out.caps.sort();
+	out.caps.dedup();
+	out
 }
